@@ -54,7 +54,9 @@ m.update({'property': ID, 'produced_by': 'independent sub-agent given only the p
           'confirmed': {'demo_without_patch_exit': int(R0), 'demo_with_patch_exit': int(R1), 'existing_suite_with_patch': R2,
                         'demo_command': CMD, 'demo_file_destination': DEST},
           'our_check': {'command': 'tools/mutant.sh seeded/%s-%s/patch.diff %s quick' % (ID, N, ID), 'exit': int(R3),
-                        'caught': int(R3) == 1}})
+                        'caught': int(R3) == 1,
+                        'verif_rev': __import__('subprocess').run(['git', '-C', __import__('os').environ.get('VERIF_ROOT', '/verif'), 'rev-parse', '--short', 'HEAD'],
+                                                                  capture_output=True, text=True).stdout.strip()}})
 json.dump(m, open('/verif/seeded/%s-%s/meta.json' % (ID, N), 'w'), indent=1)
 print('%s-%s: demo without=%s with=%s suite=%s check_exit=%s' % (ID, N, R0, R1, R2, R3))
 E
